@@ -24,7 +24,6 @@ import (
 	bserv "github.com/ipfs/boxo/blockservice"
 	bstore "github.com/ipfs/boxo/blockstore"
 	offline "github.com/ipfs/boxo/exchange/offline"
-	"github.com/ipfs/boxo/internal/verifhook"
 	dag "github.com/ipfs/boxo/ipld/merkledag"
 	ft "github.com/ipfs/boxo/ipld/unixfs"
 	uio "github.com/ipfs/boxo/ipld/unixfs/io"
@@ -111,7 +110,13 @@ type tstate struct {
 	unknown []string
 }
 
+type pass struct {
+	T     int    `json:"t"`
+	Point string `json:"point"`
+}
+
 type sched struct {
+	order   []pass // every point pass, in the order the controller released them
 	mu      sync.Mutex
 	cond    chan struct{} // signalled on every park / finish
 	threads []*tstate
@@ -143,13 +148,13 @@ func (s *sched) hook(name string) {
 
 // runCase runs the threads under the schedule preference `pref` (thread indices, consumed
 // one per decision; when exhausted or the preferred thread is not parked, rnd decides).
-func runCase(fsys *world, threads [][]op, pref []int, rnd func(n int) int) (traces [][]string, dones []bool, reads [][]string, hung bool, unknown []string) {
+func runCase(fsys *world, threads [][]op, pref []int, rnd func(n int) int) (traces [][]string, dones []bool, reads [][]string, hung bool, unknown []string, order []pass) {
 	s := &sched{cond: make(chan struct{}, 1), byGoid: map[int64]int{}}
 	for range threads {
 		s.threads = append(s.threads, &tstate{resume: make(chan struct{})})
 	}
-	verifhook.SetHook(s.hook)
-	defer verifhook.SetHook(nil)
+	mfs.VerifSetHook(s.hook)
+	defer mfs.VerifSetHook(nil)
 	for i := range threads {
 		i := i
 		started := make(chan struct{})
@@ -212,6 +217,19 @@ func runCase(fsys *world, threads [][]op, pref []int, rnd func(n int) int) (trac
 		if len(pref) > 0 {
 			want := pref[0]
 			pref = pref[1:]
+			// the preferred goroutine may still be on its way to its next point
+			for t0 := time.Now(); want < len(s.threads) && time.Since(t0) < 25*time.Millisecond; {
+				s.mu.Lock()
+				arrived := s.threads[want].parked || s.threads[want].done
+				if arrived && s.threads[want].parked {
+					parked = append(parked, want)
+				}
+				s.mu.Unlock()
+				if arrived {
+					break
+				}
+				waitChange(2 * time.Millisecond)
+			}
 			for _, p := range parked {
 				if p == want {
 					pick = p
@@ -225,6 +243,7 @@ func runCase(fsys *world, threads [][]op, pref []int, rnd func(n int) int) (trac
 		th := s.threads[pick]
 		th.parked = false
 		th.trace = append(th.trace, th.point)
+		s.order = append(s.order, pass{pick, th.point})
 		if _, ok := pointNames[th.point]; !ok {
 			th.unknown = append(th.unknown, th.point)
 		}
@@ -250,7 +269,65 @@ func runCase(fsys *world, threads [][]op, pref []int, rnd func(n int) int) (trac
 		reads = append(reads, append([]string{}, th.reads...))
 		unknown = append(unknown, th.unknown...)
 	}
+	order = append([]pass{}, s.order...)
 	return
+}
+
+// staleMetaWriteback reports whether the run has the signature of finding C20-2 on file f:
+// a goroutine's SetMode/SetModTime read the file's node (GetNode point) and wrote a node
+// derived from it back (setNodeData point) while, in between, another goroutine's
+// descriptor flushed a write of the same file.
+func staleMetaWriteback(threads [][]op, order []pass, f int) bool {
+	// k-th setNodeData pass of a goroutine belongs to its k-th chmod/touch; k-th flushUp pass to its k-th write/read/flushfile
+	nth := func(t int, kinds map[string]bool, k int) (op, bool) {
+		for _, o := range threads[t] {
+			if kinds[o.Kind] {
+				if k == 0 {
+					return o, true
+				}
+				k--
+			}
+		}
+		return op{}, false
+	}
+	metaKinds := map[string]bool{"chmod": true, "touch": true}
+	flushKinds := map[string]bool{"write": true, "read": true, "flushfile": true}
+	setSeen := map[int]int{}
+	for i, p := range order {
+		if p.Point != "File.setNodeData:nodeLock.Lock" {
+			continue
+		}
+		o, ok := nth(p.T, metaKinds, setSeen[p.T])
+		setSeen[p.T]++
+		if !ok || o.F != f {
+			continue
+		}
+		// the GetNode pass of the same goroutine right before
+		g := -1
+		for j := i - 1; j >= 0; j-- {
+			if order[j].T == p.T {
+				if order[j].Point == "File.GetNode:nodeLock.RLock" {
+					g = j
+				}
+				break
+			}
+		}
+		if g < 0 {
+			continue
+		}
+		flushSeen := map[int]int{}
+		for j, q := range order {
+			if q.Point != "fd.flushUp:nodeLock.Lock" {
+				continue
+			}
+			o2, ok2 := nth(q.T, flushKinds, flushSeen[q.T])
+			flushSeen[q.T]++
+			if ok2 && q.T != p.T && o2.F == f && (o2.Kind == "write" || o2.Kind == "flushfile") && j > g && j < i {
+				return true
+			}
+		}
+	}
+	return false
 }
 
 // ---------- the filesystem under test ----------
@@ -413,6 +490,7 @@ type replay struct {
 	Traces  [][]string `json:"points_passed"`
 	Done    []bool     `json:"finished"`
 	Hung    bool       `json:"hung"`
+	Order   []pass     `json:"global_order"`
 }
 
 func TestC20(t *testing.T) {
@@ -434,6 +512,8 @@ func TestC20(t *testing.T) {
 		{[][]op{{{Kind: "modtime", F: 1}}, {{Kind: "touch", F: 1}}}, []int{0, 1, 1, 0, 0}},
 		{[][]op{{{Kind: "mode", F: 0}}, {w(0, true)}}, []int{0, 1, 1, 1, 1, 1, 1, 0, 0}},
 		{[][]op{{{Kind: "modtime", F: 0}}, {{Kind: "flushfile", F: 0}}}, []int{0, 1, 1, 1, 1, 0, 0}},
+		// finding C20-2: Touch reads the node, a write is closed, Touch writes the stale node back
+		{[][]op{{{Kind: "touch", F: 1}}, {w(1, false)}}, []int{0, 1, 1, 1, 1, 1, 1, 0}},
 		// writers and readers of one file, metadata, listing
 		{[][]op{{w(0, true)}, {w(0, false)}, {{Kind: "read", F: 0}}}, []int{0, 1, 2, 0, 1, 2, 0, 1, 2}},
 		{[][]op{{w(0, false), {Kind: "read", F: 0}}, {{Kind: "listd"}, {Kind: "size", F: 0}}}, []int{0, 0, 1, 0, 1, 0, 1}},
@@ -460,8 +540,8 @@ func TestC20(t *testing.T) {
 		if err != nil {
 			t.Fatal(err)
 		}
-		traces, dones, reads, hung, unknown := runCase(fsys, threads, pref, e.Rng.Intn)
-		rp := replay{threads, pref, traces, dones, hung}
+		traces, dones, reads, hung, unknown, order := runCase(fsys, threads, pref, e.Rng.Intn)
+		rp := replay{threads, pref, traces, dones, hung, order}
 		for _, u := range unknown {
 			st.Violate("a schedule point the model does not know was passed: "+u, "", rp)
 		}
@@ -500,7 +580,11 @@ func TestC20(t *testing.T) {
 					}
 				}
 				if !okFinal {
-					st.Violate(fmt.Sprintf("after all descriptors were closed %s shows %q, which is not an acknowledged write", files[f], shown), "", rp)
+					fid := ""
+					if staleMetaWriteback(threads, order, f) {
+						fid = "C20-2"
+					}
+					st.Violate(fmt.Sprintf("after all descriptors were closed %s shows %q, which is not an acknowledged write", files[f], shown), fid, rp)
 				}
 				if shown != persisted {
 					st.Violate(fmt.Sprintf("%s shows %q but the root DAG holds %q", files[f], shown, persisted), "", rp)
@@ -532,7 +616,11 @@ func TestC20(t *testing.T) {
 						ok = got == d
 					}
 					if !ok {
-						st.Violate(fmt.Sprintf("goroutine %d read %q from %s: not the data it closed itself / not an acknowledged write", ti, got, files[o.F]), "", rp)
+						fid := ""
+						if staleMetaWriteback(threads, order, o.F) {
+							fid = "C20-2"
+						}
+						st.Violate(fmt.Sprintf("goroutine %d read %q from %s: not the data it closed itself / not an acknowledged write", ti, got, files[o.F]), fid, rp)
 					}
 				}
 			}
